@@ -612,6 +612,7 @@ type QueryPart struct {
 	stashedExpressionTreeTranslator *ExpressionTreeTranslator
 	stashedQuantifierArray          []pgsql.Expression
 	stashedQuantifierUseExists      bool
+	stashedQuantifierShadowedAlias  models.Optional[pgsql.Identifier]
 	quantifierIndex                 int
 	quantifierIdentifiers           *pgsql.IdentifierSet
 	unwindClauses                   []UnwindClause
